@@ -55,6 +55,8 @@ pub enum Ev {
     PutProtectedOverflow,
     ReadOnlyOnNonMru,
     EstimatorReset,
+    ExtremeLimit,
+    IterFinish,
     N,
 }
 
@@ -101,6 +103,8 @@ pub const EV_NAMES: [&str; Ev::N as usize] = [
     "put_protected_overflow",
     "read_only_on_non_mru",
     "estimator_reset",
+    "room_left_checked_at_extreme_limit",
+    "iter_std_consumption_path_on_non_empty_rest",
 ];
 
 #[derive(Clone, Debug)]
@@ -148,7 +152,7 @@ pub struct Model {
 }
 
 /// expected result of walking an iterator over `list` (MRU first); applies writes
-pub fn expected_iter(list: &mut L, fam: u8, pat: &[bool], clone_at: u8, write: bool, i: usize) -> IterOut {
+pub fn expected_iter(list: &mut L, fam: u8, pat: &[bool], clone_at: u8, write: bool, i: usize, fin: u8) -> IterOut {
     let n = list.len();
     let lru = fam_is_lru(fam);
     let idx = |s: usize| if lru { n - 1 - s } else { s };
@@ -181,6 +185,11 @@ pub fn expected_iter(list: &mut L, fam: u8, pat: &[bool], clone_at: u8, write: b
         }
         evs
     };
+    // the rest, consumed through the same std path on a Vec iterator of the expected items
+    let finish = |list: &L, f: usize, b: usize| {
+        let rest: Vec<(i32, i64)> = (f..b).map(|s| item(list, s)).collect();
+        crate::ops::iter_finish(rest.into_iter(), fin, &mut |x| x)
+    };
     let ca = clone_at as usize;
     if shared && ca <= pat.len() {
         let mut evs = walk(list, &mut f, &mut b, &pat[..ca], 0, false);
@@ -188,10 +197,12 @@ pub fn expected_iter(list: &mut L, fam: u8, pat: &[bool], clone_at: u8, write: b
         evs.extend(walk(list, &mut f, &mut b, &pat[ca..], ca, false));
         let rev: Vec<bool> = pat[ca..].iter().rev().map(|x| !*x).collect();
         let clone_evs = walk(list, &mut cf, &mut cb, &rev, 0, false);
-        IterOut { initial_hint: (n, Some(n)), evs, clone_evs, count_rest: b - f, clone_count_rest: cb - cf, fused_ok: true }
+        let (fin_items, fin_lens, count_rest) = finish(list, f, b);
+        IterOut { initial_hint: (n, Some(n)), evs, clone_evs, count_rest, clone_count_rest: cb - cf, fused_ok: true, fin_items, fin_lens }
     } else {
         let evs = walk(list, &mut f, &mut b, pat, 0, writes);
-        IterOut { initial_hint: (n, Some(n)), evs, clone_evs: vec![], count_rest: b - f, clone_count_rest: 0, fused_ok: true }
+        let (fin_items, fin_lens, count_rest) = finish(list, f, b);
+        IterOut { initial_hint: (n, Some(n)), evs, clone_evs: vec![], count_rest, clone_count_rest: 0, fused_ok: true, fin_items, fin_lens }
     }
 }
 
@@ -390,7 +401,7 @@ impl Model {
                 }
                 return Out::V(r);
             }
-            Op::Iter { list, fam, pat, clone_at, write } => {
+            Op::Iter { list, fam, pat, clone_at, write, fin } => {
                 let mut ls = self.lists_mut();
                 let l = &mut *ls[*list as usize];
                 if l.len() >= 2 && pat.iter().any(|b| *b) && pat.iter().any(|b| !*b) {
@@ -402,7 +413,10 @@ impl Model {
                 if !fam_is_mut(*fam) && (*clone_at as usize) <= pat.len() {
                     st.hit(Ev::IterClone);
                 }
-                return Out::Iter(expected_iter(l, *fam, pat, *clone_at, *write, i));
+                if *fin % crate::ops::N_FIN != 0 && l.len() > pat.len() {
+                    st.hit(Ev::IterFinish);
+                }
+                return Out::Iter(expected_iter(l, *fam, pat, *clone_at, *write, i, *fin));
             }
             Op::Purge => {
                 if self.lists().iter().any(|l| !l.is_empty()) {
